@@ -32,26 +32,34 @@ MemHash(seed, a) == ((a * 197) + ((a \div 256) * 91) + (seed * 57) + ((a \div 3)
 IoHash(seed, port, k) == ((port * 31) + (k * 101) + (seed * 7) + 5) % 256
 
 \* "image": a program image (sequence dev.img) loaded at dev.seed over a background of dev.val
-Base(dev, a) == IF dev.mk = "hash" THEN MemHash(dev.seed, a)
+Base(dev, a) == IF dev.mk \in {"hash", "volatile"} THEN MemHash(dev.seed, a)
                 ELSE IF dev.mk = "image" /\ W(a - dev.seed) < Len(dev.img) THEN dev.img[W(a - dev.seed) + 1]
                 ELSE dev.val
 
 InOvl(c, a) == c.ovl.n > 0 /\ W(a - c.ovl.start) < c.ovl.n
 
+\* "volatile" device: every address >= dev.val is a read-sensitive register (read-to-clear, FIFO head):
+\* the first bus read of an address returns what memory holds there, each later read of the same address
+\* a different value; writes there do not stick.  c.seen[a] = bus reads of a made so far.
+IsVolatile(c, a) == c.dev.mk = "volatile" /\ a >= c.dev.val
+
 \* value memory holds at a (no bus access)
 Peek(c, a) ==
   IF InOvl(c, a) THEN c.ovl.data[W(a - c.ovl.start) + 1]
+  ELSE IF IsVolatile(c, a) /\ a \in DOMAIN c.seen THEN MemHash(c.dev.seed, a + 7 * c.seen[a])
   ELSE IF a >= c.dev.len THEN 0
   ELSE IF a \in DOMAIN c.m THEN c.m[a]
   ELSE Base(c.dev, a)
 
 RdMem(c, a) ==
   IF InOvl(c, a) THEN [c EXCEPT !.v = Peek(c, a)]
-  ELSE [c EXCEPT !.v = Peek(c, a), !.rd = Append(@, a)]
+  ELSE [c EXCEPT !.v = Peek(c, a), !.rd = Append(@, a),
+                 !.seen = IF IsVolatile(c, a)
+                          THEN (a :> (IF a \in DOMAIN @ THEN @[a] + 1 ELSE 1)) @@ @ ELSE @]
 
 WrMem(c, a, x) ==
   IF InOvl(c, a) THEN c
-  ELSE [c EXCEPT !.m = IF a < c.dev.len THEN (a :> x) @@ @ ELSE @,
+  ELSE [c EXCEPT !.m = IF a < c.dev.len /\ ~IsVolatile(c, a) THEN (a :> x) @@ @ ELSE @,
                  !.wr = Append(@, <<a, x>>)]
 
 Ins(pio) == Len(SelectSeq(pio, LAMBDA e : e[1] = 0))
